@@ -161,6 +161,31 @@ CLAIMED.update({
         technique='Rocq/Coq proof (comparison lemma) + executed metamorphic pairs', ref='DESIGN.md section 5 C12'),
 })
 
+CLAIMED.update({
+    'C15': dict(
+        text='Coq theorems (props/C15.v) on a model of TBRMMData over exact rationals: one row per distinct geo, one column per '
+             'distinct date in chronological order, missing cells zero, rows a permutation of the geos in non-increasing mean, '
+             'shares summing to one, absent excludable geos dropped and absent required geos rejected with ValueError, '
+             'assignable = eligible minus must-exclude. Long frames built from generated specifications (missing cells, '
+             'duplicate rows, int/str IDs, eligibility subset / equal / superset, random geo indices) are run through '
+             'TBRMMData and the model (cells exact, shares to 1e-12) and an independent recomputation with fractions.',
+        note='Trusted: Coq kernel + vm_compute; pandas pivot / mean / sort / .loc inside TBRMMData are modelled by hand '
+             '(tied by execution); row order compared up to ties in the mean. No axioms.',
+        technique='Rocq/Coq proof (permutation / sortedness / field identity lemmas) + executed correspondence with exact '
+                  'rationals + direct oracle', ref='DESIGN.md section 5 C15'),
+    'C19': dict(
+        text='Coq theorems (props/C19.v), for every behaviour of the two statistical detectors: the screened data are the input '
+             'rows minus every row of the reported noisy geos and reported outlier dates, in the original order; a row '
+             'survives iff it is not reported; order-independent detectors give order-independent reports. Generated '
+             'experiment frames (planted noisy / constant geos, spike dates, custom column names and labels, shuffled rows) '
+             'are run through TBRDiagnostics.fit and the model; oracle: screened data, per-date group totals of the analysis '
+             'series, unmodified input, row-order independence.',
+        note='Trusted: Coq kernel + vm_compute; the detectors (scipy / statsmodels) are oracles of the model; pandas '
+             'filtering / pivoting modelled by hand (tied by execution). No axioms.',
+        technique='Rocq/Coq proof (filter algebra, permutation invariance) + executed correspondence + direct oracle',
+        ref='DESIGN.md section 5 C19'),
+})
+
 NOT_YET = 'check not built yet in this revision (model under construction; see DESIGN.md section 10)'
 NA = {}
 
